@@ -110,6 +110,9 @@ type Config struct {
 }
 
 type Options struct {
+	// StartID is added to every entry id (and so to every session id): real networks run with
+	// ids of robust.MessageOffset + raft index, i.e. around 4.6e18
+	StartID  uint64
 	Commands []string // keys of the real command table
 	// Bias selects a weight profile: "", "membership" (C14/C17/C12), "privilege" (C13), "serialize" (C03)
 	Bias string
@@ -143,7 +146,7 @@ type Gen struct {
 }
 
 func New(opt Options) *Gen {
-	g := &Gen{opt: opt, nano: opt.StartNano, cmid: map[uint64]uint64{}, lastLine: map[uint64]Entry{}}
+	g := &Gen{opt: opt, nano: opt.StartNano, next: opt.StartID, cmid: map[uint64]uint64{}, lastLine: map[uint64]Entry{}}
 	if g.nano == 0 {
 		g.nano = 1500000000e9
 	}
